@@ -119,7 +119,13 @@ def replay_behaviour(beh, docs, variant):
                 k2 = objs.get(st["k2"]) if st["k2"] else None
                 v = objs.get(st["b"]) if st["b"] else None
                 c = objs.get(st["c"]) if st["c"] else None
-                out, res = c01.outcome_of(lambda: dp.MapOrListValue(key=k, index=k2, value=v, condition=c))
+                lc = objs.get(st["lc"]) if st.get("lc") else None
+                mc = objs.get(st["mc"]) if st.get("mc") else None
+                if (variant + si) % 2 == 0:       # by keyword / by position (the documented parameter order)
+                    out, res = c01.outcome_of(lambda: dp.MapOrListValue(key=k, index=k2, value=v, condition=c,
+                                                                        list_condition=lc, map_condition=mc))
+                else:
+                    out, res = c01.outcome_of(lambda: dp.MapOrListValue(k, k2, v, lc, mc, c))
             elif act == "PartFilter":
                 part = objs[st["a"]]
                 want_list = st["op"] == "list"
